@@ -176,6 +176,7 @@ def _randn(rng, *shape):
     return np.array([rng.gauss(0.0, 1.0) for _ in range(int(np.prod(shape)))]).reshape(shape)
 
 
+SEQ_OPS = ['scaleF', 'zeroF', 'scaleQ', 'otherdt', 'same', 'negF']
 KINDS = ['stable', 'unstable', 'nilpotent', 'zero', 'skew', 'random']
 
 
@@ -228,7 +229,8 @@ def make_case(rng, idx, nmax):
     P0 = a @ a.T * 10 ** rng.uniform(-2, 2)
     return dict(idx=idx, n=n, kind=kind, rankQ=rk, dclass=dclass, F=F, Q=Q, dt=float(dt), parts=parts, P0=P0,
                 order=rng.choice(['C', 'F']), qscale=qscale, lin=2.0 ** rng.randint(-60, 40),
-                intF=bool(intF), intdt=bool(intdt))
+                intF=bool(intF), intdt=bool(intdt),
+                seq=([rng.choice(SEQ_OPS) for _ in range(rng.randint(1, 4))] if (n <= 8 and rng.random() < 0.25) else None))
 
 
 # ---------------------------------------------------------------------------
@@ -320,7 +322,8 @@ def check_case(c, oracle='auto', verbose=False, stats=None):
         ratio = err / tol if tol > 0 else (0.0 if err == 0 else math.inf)
         worst[0] = max(worst[0], ratio)
         if stats is not None:
-            k = what.split(' (')[0].split(' of ')[0]
+            k = ('call sequence: ' + what.split('): ')[-1]) if what.startswith('call sequence') else \
+                what.split(' (')[0].split(' of ')[0]
             stats[k] = max(stats.get(k, 0.0), ratio if math.isfinite(ratio) else 1e300)
         if verbose:
             print(f"  {what}: error {err:.3e}  tolerance {tol:.3e}")
@@ -370,6 +373,35 @@ def check_case(c, oracle='auto', verbose=False, stats=None):
     if n:
         cmp("Qd not positive semidefinite", max(0.0, -float(np.linalg.eigvalsh((Qd + Qd.T) / 2)[0])),
             n * sc['bQd'])
+    # calls in a row on the SAME F and Q buffers, updated in place in between (the usual preallocated-buffer
+    # loop), with the same dt: the result depends only on the current argument values
+    if c.get('seq') and dt > 0.0:
+        Fb, Qb = np.array(F, copy=True), np.array(Q, copy=True)
+        try:
+            kalman.compute_process_matrices(Fb, Qb, dt)
+            for k, op in enumerate(c['seq']):
+                if op == 'scaleF':
+                    Fb *= 0.5
+                elif op == 'negF':
+                    Fb *= -1.0
+                elif op == 'zeroF':
+                    Fb[:] = 0.0
+                elif op == 'scaleQ':
+                    Qb *= 4.0
+                elif op == 'otherdt':
+                    kalman.compute_process_matrices(Fb, Qb, 0.5 * dt)
+                o2 = kalman.compute_process_matrices(Fb, Qb, dt)
+                P2, Q2 = np.asarray(o2[0], float), np.asarray(o2[1], float)
+                s2 = _scale(Fb, Qb, dt)
+                Pr2, Qr2 = ref(Fb, Qb, dt) if oracle != 'fraction' else phi_qd_dyadic(Fb, Qb, dt)
+                lab = f"call sequence (F, Q updated in place: {'+'.join(c['seq'][:k + 1])}, same dt): "
+                cmp(lab + "Phi != exp(F dt) of the current arguments", float(np.abs(P2 - Pr2).max(initial=0.0)),
+                    slack * s2['bPhi'])
+                cmp(lab + "Qd != integral for the current arguments", float(np.abs(Q2 - Qr2).max(initial=0.0)),
+                    slack * s2['bQd'])
+        except Exception as ex:
+            fails.append((f"call sequence {c['seq']}: compute_process_matrices raised {type(ex).__name__}: "
+                          f"{str(ex)[:160]}", {}))
     # linearity in Q (power-of-two factor: c * Qd is exact) and Phi independent of Q
     lin = float(c.get('lin') or 0.0)
     if lin and Q.any():
@@ -574,7 +606,7 @@ def check_assembly(c, verbose=False, stats=None):
 # ---------------------------------------------------------------------------
 
 def _hexcase(c):
-    out = {k: c[k] for k in ('idx', 'n', 'kind', 'rankQ', 'dclass', 'order', 'qscale', 'lin', 'exact_nmax', 'intF', 'intdt') if k in c}
+    out = {k: c[k] for k in ('idx', 'n', 'kind', 'rankQ', 'dclass', 'order', 'qscale', 'lin', 'exact_nmax', 'intF', 'intdt', 'seq') if k in c}
     for k in ('F', 'Q', 'P0'):
         a = np.asarray(c[k], dtype=float)
         out[k] = [float(v).hex() for v in a.ravel()]
